@@ -50,7 +50,7 @@ class C18(Prop):
     worker = 'sessworker'
     cross_limit = 6
     rule = ('the same backtest (i) twice in one process, the second run re-using the CSVDailyBarDataSource (and its memo) that served the '
-            'first run plus arbitrary extra queries, and (ii) in fresh interpreters under PYTHONHASHSEED in {0,1,2,3,4242,99991}, on '
+            'first run plus arbitrary extra queries, or that served a different (earlier/later) session - also with two vendors behind one shared data handler -, and (ii) in fresh interpreters under PYTHONHASHSEED in {0,1,2,3,4242,99991}, on '
             'configurations that include dynamic universes whose assets enter together and the top-N momentum alpha on tied momenta; '
             'fills, history (no order ids), equity curve and target allocations compared bit-for-bit; the first run is also compared '
             'with the Coq session model; non-trivial = at least one fill; distinct = hash of the configuration')
@@ -72,16 +72,27 @@ class C18(Prop):
             if c['market']['kind'] == 'csv' and rng.random() < 0.6:
                 # the data source first serves a DIFFERENT (later, overlapping or disjoint) session
                 cfg = c['cfg']
-                shift = rng.choice([3, 10, 25, 60]) * DAY
+                shift = rng.choice([3, 10, 25, 60, -10, -25, -60]) * DAY
                 other = dict(cfg, start=cfg['start'] + shift, end=cfg['end'] + shift)
                 if other.get('burn') is not None:
                     other['burn'] = other['burn'] + shift
                 if other['universe'][0] == 'dynamic':
                     other['universe'] = ['dynamic', [[a, (None if e is None else e + shift)] for a, e in other['universe'][1]]]
                 c['cfg_other'] = other
-                c['market'] = csv_market(rng, c['assets'], cfg['start'] // DAY, (cfg['end'] + shift) // DAY, c['exact'])
+                lo = min(cfg['start'], cfg['start'] + shift) // DAY
+                hi = max(cfg['end'], cfg['end'] + shift) // DAY
+                c['market'] = csv_market(rng, c['assets'], lo, hi, c['exact'])
                 c['mode'] = 'after_other'
                 c['stream'] += ':reused'
+                if rng.random() < 0.5:
+                    # a second vendor with a longer history and different quotes behind a primary one whose files begin
+                    # with the session; the same data HANDLER (not only its sources) first serves the other session
+                    backup = csv_market(rng, c['assets'], lo, hi, c['exact'])['assets']
+                    first = cfg['start'] // DAY - rng.choice([0, 1, 3])
+                    prim = dict((a, [r for r in rows if r[0] >= first] or rows[-1:]) for a, rows in c['market']['assets'].items())
+                    c['market'] = dict(c['market'], assets=prim, backup=backup)
+                    c['share_handler'] = True
+                    c['stream'] += ':two-vendors'
             out.append(c)
         return out
 
